@@ -333,8 +333,9 @@ def check_C18(res):
                     want = 'elected' if a['tag'] == 'elect' else 'defeated'
                     if len(named) != 1 or a['cstate'][named[0]]['state'] != want:
                         res.violation('%s action does not name a candidate that is %s (%s: %s)' % (a['tag'], want, rule, a['msg']), H.wit(data, rule, opts))
-                    elif rule == 'qpq' and changed == [] and a['tag'] == 'elect':
-                        pass        # re-election after QPQ's restart: the silent un-election is the exception C09 grants
+                    elif rule == 'qpq' and a['tag'] == 'elect' and \
+                            [c_ for c_ in changed if not (prev[c_]['state'] == 'elected' and a['cstate'][c_]['state'] == 'hopeful')] in ([], named):
+                        pass        # QPQ restart: silent un-elections and re-elections are the exception C09 grants
                     elif changed != named and not (rule in ('cfer', 'cfer-batch') and a['msg'].startswith('Elect pending')):
                         res.violation('%s action %r but statuses changing at this step are %s (%s)' % (a['tag'], a['msg'], changed, rule), H.wit(data, rule, opts))
                 elif changed and not (rule == 'qpq' and a['tag'] == 'round'):
